@@ -70,7 +70,7 @@ def dtor_runs(res, tier, seed):
             res.corr_failures.append({"relation": "dtor harness builds against /repo", "what": err[-600:], "case": None})
             return
         jobs = []
-        for (N, P) in [(1, 2), (1, 4), (2, 2), (2, 3)]:
+        for (N, P) in [(1, 1), (1, 2), (1, 3), (1, 4), (2, 2), (2, 3)]:
             for routing in T.ROUTINGS:
                 for kb in (0, None):
                     for rep in range(1 if tier == "quick" else 4):
